@@ -7,7 +7,9 @@ from .c01_components import cls, product, surf_of, MESH_RANGES, T
 CFG = product([dict(nx=2, ny=3), dict(nx=3, ny=3, _tier=T), dict(nx=2, ny=4, _tier=T), dict(nx=3, ny=2)],
               [dict(symmetry=True, side="left"), dict(symmetry=False, _tier=T)],
               [dict(model="tube", fem_origin=0.35), dict(model="tube", fem_origin=0.0), dict(model="tube", fem_origin=1.0, _tier=T),
-               dict(model="wingbox")])
+               dict(model="wingbox"),
+               # the geometric reference axis of the design variables is not where the panel forces act
+               dict(model="tube", fem_origin=0.35, ref_axis_pos=0.6)])
 
 
 def quarter_chord_midspan(xp, mesh):
@@ -133,3 +135,38 @@ def mux_forces(env, **cfg):
         n = s["name"]
         env.eq("C19", "demux(mesh) then per-surface block of mux(forces) are node-for-node aligned [%s]" % n,
                dmx.compute({XN: f_flat})[n + "_def_mesh"], P[n + "_mesh_point_forces"])
+
+
+@job("c11.exported_forces_wiring", ("C11",),
+     cfgs=[dict(nx=2, ny=3, symmetry=True, side="left", nsurf=1, compressible=True),
+           dict(nx=2, ny=2, symmetry=True, side="right", nsurf=3, compressible=True),
+           dict(nx=2, ny=2, symmetry=True, side="left", nsurf=2, compressible=False),
+           dict(nx=2, ny=3, symmetry=False, nsurf=1, compressible=False, _tier=T)])
+def exported_forces_wiring(env, compressible, **cfg):
+    """modular step from the component contract (c11.MeshPointForces: node forces conserve force and moment of the panel
+    forces *it is given*, on the mesh *it is given*) to the analysis point: in the real connection table of the
+    incompressible and of the Prandtl-Glauert solver group, the component that exports the mesh-node forces is fed by the
+    very panel forces the group reports (physical frame) and by the surface's deformed mesh"""
+    from .. import gsx
+    from .c06 import surfaces_for
+    surfs = surfaces_for(cfg)
+    g = gsx.GroupSX(env, gsx.aero_model(surfs, compressible=compressible))
+    out_of = {}
+    for a, pr in g.abs2prom_out.items():
+        out_of.setdefault(pr, []).append(a)
+    exporters = sorted({a.rsplit(".", 1)[0] for a in g.abs2prom_out if a.endswith("_mesh_point_forces")})
+    env.holds("C11", "one component exports the mesh-node forces", len(exporters) == 1, str(exporters))
+    for s in surfs:
+        n = s["name"]
+        reported = out_of.get("ap.aero_states.%s_sec_forces" % n, [])
+        env.holds("C11", "the analysis point reports one panel-force array [%s]" % n, len(reported) == 1, str(reported))
+        src = g.conn.get("%s.%s_sec_forces" % (exporters[0], n)) if exporters else None
+        env.holds("C11", "the exporter of the mesh-node forces reads the panel forces the analysis point reports [%s]" % n,
+                  bool(reported) and src == reported[0], "reads %s, reported %s" % (src, reported))
+        consumers = [a for a, so in g.conn.items() if reported and so == reported[0]]
+        env.holds("C11", "the coefficient functionals read the same panel forces [%s]" % n,
+                  any(a.endswith("%s_perf.sec_forces" % n) or a.endswith("%s_perf.liftdrag.sec_forces" % n) or ".%s_perf." % n in a
+                      for a in consumers), str(consumers))
+        # the mesh the exported forces refer to: the component has no mesh input, its output is indexed like def_mesh
+        shp = g.meta_out[out_of["ap.aero_states.%s_mesh_point_forces" % n][0]]["shape"]
+        env.holds("C11", "exported node forces are indexed like the surface mesh [%s]" % n, tuple(shp) == tuple(s["mesh"].shape), str(shp))
